@@ -108,13 +108,18 @@ SortAsc(s) == SortSeq(s, LAMBDA a, b : a < b)
 \* stable argsort of a column of integers
 StableArgsort(col) == SortSeq([k \in 1..Len(col) |-> k],
                               LAMBDA a, b : col[a] < col[b] \/ (col[a] = col[b] /\ a < b))
+\* np.unique of a descriptor column: the sorted distinct values (the bootstrap's groups)
+Groups(col) == SortAsc(SetToSeq(Range(col)))
+IsDraw(d, g) == Len(d) = Len(g) /\ Range(d) \subseteq 1..Len(g)      \* as many draws as groups
 IsPerm(p, n) == Len(p) = n /\ Range(p) = 1..n
 InvPerm(p) == [k \in 1..Len(p) |-> CHOOSE j \in 1..Len(p) : p[j] = k]
 Pick(s, sel) == [k \in 1..Len(sel) |-> s[sel[k]]]
 
 (* ---------------- the operations ---------------------------------------- *)
-\* An event is a record [op, o, o2, by, vals]; unused fields are 0 / "" / <<>>.
-Ev(op, o, o2, by, vals) == [op |-> op, o |-> o, o2 |-> o2, by |-> by, vals |-> vals]
+\* An event is a record [op, o, o2, by, vals, by2, vals2]; unused fields are 0 / "" / <<>>.
+Ev2(op, o, o2, by, vals, by2, vals2) == [op |-> op, o |-> o, o2 |-> o2, by |-> by, vals |-> vals,
+                                         by2 |-> by2, vals2 |-> vals2]
+Ev(op, o, o2, by, vals) == Ev2(op, o, o2, by, vals, "", <<>>)
 
 SelRows(ob, sel) == [ob EXCEPT !.rows = Pick(ob.rows, sel), !.have = Pick(ob.have, sel),
                                !.ridx = Pick(ob.ridx, sel), !.vec = Pick(ob.vec, sel)]
@@ -123,7 +128,7 @@ PermPats(ob, p) ==           \* reorder(): every pattern descriptor follows, inc
   [ob EXCEPT !.pats = Pick(ob.pats, p), !.pidx = Pick(ob.pidx, p),
              !.vec = [r \in 1..Len(ob.rows) |-> VecFromSel(ob.vec[r], n, p, FALSE)]]
 
-Producer(op) == op \in {"getitem", "subset", "subsample", "subset_pattern", "subsample_pattern",
+Producer(op) == op \in {"boot_rdm", "boot_pattern", "boot_both", "getitem", "subset", "subsample", "subset_pattern", "subsample_pattern",
                         "copy", "concat", "from_partials", "permute", "inverse_permute",
                         "dict", "matrices", "saveload"}
 InPlace(op) == op \in {"reorder", "sort_alpha", "sort_list", "append"}
@@ -152,6 +157,19 @@ Enabled(h, e) ==
             /\ (e.by = "cat" => ob.pcat = 1)
             /\ Range(e.vals) \subseteq Range(PDesc(ob, e.by))
             /\ Len(MatchSeq(PDesc(ob, e.by), e.vals)) <= MaxPats
+       [] e.op = "boot_rdm" ->           \* vals = the draw (1-based indices into the sorted groups)
+            /\ e.by \in {"index", "subj", "grp"} /\ IsDraw(e.vals, Groups(RDesc(ob, e.by)))
+            /\ Len(MatchSeq(RDesc(ob, e.by), Pick(Groups(RDesc(ob, e.by)), e.vals))) <= MaxRows
+       [] e.op = "boot_pattern" ->
+            /\ e.by \in {"index", "cond", "cat"} /\ (e.by = "cat" => ob.pcat = 1)
+            /\ IsDraw(e.vals, Groups(PDesc(ob, e.by)))
+            /\ Len(MatchSeq(PDesc(ob, e.by), Pick(Groups(PDesc(ob, e.by)), e.vals))) <= MaxPats
+       [] e.op = "boot_both" ->          \* (by, vals) resample RDMs, (by2, vals2) conditions
+            /\ e.by \in {"index", "subj", "grp"} /\ IsDraw(e.vals, Groups(RDesc(ob, e.by)))
+            /\ Len(MatchSeq(RDesc(ob, e.by), Pick(Groups(RDesc(ob, e.by)), e.vals))) <= MaxRows
+            /\ e.by2 \in {"index", "cond", "cat"} /\ (e.by2 = "cat" => ob.pcat = 1)
+            /\ IsDraw(e.vals2, Groups(PDesc(ob, e.by2)))
+            /\ Len(MatchSeq(PDesc(ob, e.by2), Pick(Groups(PDesc(ob, e.by2)), e.vals2))) <= MaxPats
        [] e.op = "reorder" -> IsPerm(e.vals, np)
        [] e.op = "sort_alpha" -> e.by \in {"index", "cond", "cat"} /\ e.o2 \in {0, 1} /\ (e.by = "cat" => ob.pcat = 1)  \* o2=1: reindex=False
        [] e.op = "sort_list" ->          \* explicit order: a permutation of a duplicate-free column
@@ -178,20 +196,30 @@ Enabled(h, e) ==
        [] OTHER -> FALSE
   /\ e.op = "drop" => Cardinality(LiveSet(h)) >= 2
 
+SubsampleRows(ob, by, vals) == SelRows(ob, MatchSeq(RDesc(ob, by), vals))
+SubsamplePats(ob, by, vals) ==
+  LET sel == SortAsc(MatchSeq(PDesc(ob, by), vals)) IN
+  [ob EXCEPT !.pats = Pick(ob.pats, sel), !.pidx = Pick(ob.pidx, sel),
+             !.vec = [r \in 1..Len(ob.rows) |-> VecFromSel(ob.vec[r], Len(ob.pats), sel, TRUE)]]
+\* the group values a bootstrap returns as "indices": groups[draw]
+BootIdx(col, draw) == Pick(Groups(col), draw)
+
 \* the object an operation produces / the new value of its in-place target
 Result(h, e) ==
   LET ob == h[e.o]  nr == Len(ob.rows)  np == Len(ob.pats) IN
   CASE e.op = "getitem" -> SelRows(ob, e.vals)
     [] e.op = "subset" -> SelRows(ob, Matching(RDesc(ob, e.by), Range(e.vals)))
-    [] e.op = "subsample" -> SelRows(ob, MatchSeq(RDesc(ob, e.by), e.vals))
+    [] e.op = "subsample" -> SubsampleRows(ob, e.by, e.vals)
+    [] e.op = "boot_rdm" -> SubsampleRows(ob, e.by, BootIdx(RDesc(ob, e.by), e.vals))
+    [] e.op = "boot_pattern" -> SubsamplePats(ob, e.by, BootIdx(PDesc(ob, e.by), e.vals))
+    [] e.op = "boot_both" ->
+         SubsamplePats(SubsampleRows(ob, e.by, BootIdx(RDesc(ob, e.by), e.vals)),
+                       e.by2, BootIdx(PDesc(ob, e.by2), e.vals2))
     [] e.op = "subset_pattern" ->
          LET sel == Matching(PDesc(ob, e.by), Range(e.vals)) IN
          [ob EXCEPT !.pats = Pick(ob.pats, sel), !.pidx = Pick(ob.pidx, sel),
                     !.vec = [r \in 1..nr |-> MaskVec(ob.vec[r], np, Range(sel))]]
-    [] e.op = "subsample_pattern" ->
-         LET sel == SortAsc(MatchSeq(PDesc(ob, e.by), e.vals)) IN
-         [ob EXCEPT !.pats = Pick(ob.pats, sel), !.pidx = Pick(ob.pidx, sel),
-                    !.vec = [r \in 1..nr |-> VecFromSel(ob.vec[r], np, sel, TRUE)]]
+    [] e.op = "subsample_pattern" -> SubsamplePats(ob, e.by, e.vals)
     [] e.op = "reorder" -> PermPats(ob, e.vals)
     [] e.op = "sort_alpha" ->
          LET s == PermPats(ob, StableArgsort(PDesc(ob, e.by))) IN
@@ -237,6 +265,14 @@ Result(h, e) ==
     [] e.op \in {"copy", "dict", "matrices", "saveload"} -> ob
     [] OTHER -> ob
 
+\* what a bootstrap returns besides the sample: the drawn group values, per axis
+Ret(h, e) ==
+  LET ob == h[e.o] IN
+  CASE e.op = "boot_rdm" -> <<BootIdx(RDesc(ob, e.by), e.vals), <<>> >>
+    [] e.op = "boot_pattern" -> << <<>>, BootIdx(PDesc(ob, e.by), e.vals)>>
+    [] e.op = "boot_both" -> <<BootIdx(RDesc(ob, e.by), e.vals), BootIdx(PDesc(ob, e.by2), e.vals2)>>
+    [] OTHER -> << <<>>, <<>> >>
+
 Apply(h, e) ==
   IF e.op = "drop" THEN [h EXCEPT ![e.o] = Null]
   ELSE IF e.op = "to_df" THEN h
@@ -254,6 +290,12 @@ Trim(S) == {<<x>> : x \in S} \cup
             ELSE {})
 ValSeqs(S, n) == IF ArgLevel >= 2 THEN SeqsUpTo(S, n) ELSE Trim(S)
 Perms(n) == {p \in [1..n -> 1..n] : Range(p) = 1..n}
+\* every outcome of randint(0, g, size=g); trimmed: all-first, identity, all-last, one rotation
+Draws(g) == IF ArgLevel >= 2 THEN [1..g -> 1..g]
+            ELSE {d \in [1..g -> 1..g] : \/ \A k \in 1..g : d[k] = 1
+                                         \/ \A k \in 1..g : d[k] = k
+                                         \/ \A k \in 1..g : d[k] = g
+                                         \/ \A k \in 1..g : d[k] = IF k = 1 THEN g ELSE IF k = g THEN 1 ELSE 1 + (k % g)}
 PermsT(n) == IF ArgLevel >= 2 THEN Perms(n)
              ELSE {p \in Perms(n) : p = [k \in 1..n |-> n + 1 - k] \/ p = [k \in 1..n |-> (k % n) + 1]}
 
@@ -265,6 +307,13 @@ Events(h) ==
       \cup {Ev("subsample", o, 0, by, v) : by \in {"index", "subj", "grp"}, v \in ValSeqs(Range(RDesc(ob, "index")) \cup Range(ob.rows) \cup {1, 2}, 2)}
       \cup {Ev("subset_pattern", o, 0, by, v) : by \in {"index", "cond", "cat"}, v \in ValSeqs(Range(ob.pidx) \cup Range(ob.pats) \cup {1, 2}, 2)}
       \cup {Ev("subsample_pattern", o, 0, by, v) : by \in {"index", "cond", "cat"}, v \in ValSeqs(Range(ob.pidx) \cup Range(ob.pats) \cup {1, 2}, 3)}
+      \cup UNION {{Ev("boot_rdm", o, 0, by, d) : d \in Draws(Len(Groups(RDesc(ob, by))))} : by \in {"index", "subj", "grp"}}
+      \cup UNION {{Ev("boot_pattern", o, 0, by, d) : d \in Draws(Len(Groups(PDesc(ob, by))))} : by \in {"index", "cond", "cat"}}
+      \cup (IF "boot_both" \in Ops
+            THEN UNION {UNION {{Ev2("boot_both", o, 0, by, d, by2, d2) :
+                                  d \in Draws(Len(Groups(RDesc(ob, by)))), d2 \in Draws(Len(Groups(PDesc(ob, by2))))}
+                               : by2 \in {"index", "cond", "cat"}} : by \in {"index", "subj", "grp"}}
+            ELSE {})
       \cup {Ev("reorder", o, 0, "", p) : p \in PermsT(np)}
       \cup {Ev("sort_alpha", o, ri, by, <<>>) : by \in {"index", "cond", "cat"}, ri \in {0, 1}}
       \cup {Ev("sort_list", o, 0, by, Pick(PDesc(ob, by), p)) : by \in {"index", "cond"}, p \in PermsT(np)}
@@ -278,7 +327,7 @@ Init == /\ objs = [o \in 1..MaxObj |-> IF o = 1 THEN Source ELSE Null]
 
 Step(e) == /\ Enabled(objs, e)
            /\ objs' = Apply(objs, e)
-           /\ hist' = Append(hist, [ev |-> e, post |-> objs'])
+           /\ hist' = Append(hist, [ev |-> e, post |-> objs', ret |-> Ret(objs, e)])
 
 Next == Len(hist) < Depth /\ \E e \in Events(objs) : Step(e)
 
@@ -317,6 +366,22 @@ MaskIsSel == \A o \in LiveSet(objs) :
    \A S \in SUBSET (1..n) : S # {} =>
       \A r \in 1..Len(ob.rows) :
          MaskVec(ob.vec[r], n, S) = VecFromSel(ob.vec[r], n, SortAsc(SetToSeq(S)), FALSE)
+
+\* C09: a bootstrap sample consists of whole groups with the drawn multiplicity: after a boot step,
+\* for every group value the number of members in the sample = (times drawn) x (members in the source)
+Count(col, v) == Cardinality({k \in DOMAIN col : col[k] = v})
+BootFaithful == [][
+   LET st == hist'[Len(hist')]  e == st.ev  ob == objs[e.o]  new == objs'[FreeSlot(objs)] IN
+   /\ (e.op \in {"boot_rdm", "boot_both"} =>
+         LET col == RDesc(ob, e.by)  idx == st.ret[1] IN
+         /\ Len(idx) = Cardinality(Range(col))
+         /\ \A v \in Range(col) : Count(RDesc(new, e.by), v) = Count(idx, v) * Count(col, v))
+   /\ (e.op \in {"boot_pattern", "boot_both"} =>
+         LET by == IF e.op = "boot_both" THEN e.by2 ELSE e.by
+             col == PDesc(ob, by)  idx == st.ret[2] IN
+         /\ Len(idx) = Cardinality(Range(col))
+         /\ \A v \in Range(col) : Count(PDesc(new, by), v) = Count(idx, v) * Count(col, v))
+   ]_vars
 
 (* ---------------- emission of behaviours for replay (S -> I) ------------- *)
 Emit == (Len(hist) = Depth /\ (EmitMod = 1 \/ RandomElement(1..EmitMod) = 1)) => PrintT(ToJson([hist |-> hist]))
